@@ -16,6 +16,11 @@ pub struct TypeId {
 impl TypeId {
     pub fn of<T: ?Sized>() -> Self {
         let name = std::any::type_name::<T>();
+        // Miri gives every reification of a generic fn a fresh address, so identity by
+        // address never holds inside the interpreter; compare by name there.
+        #[cfg(all(feature = "verif_hooks", miri))]
+        return TypeId { id: 0, name };
+        #[cfg_attr(all(feature = "verif_hooks", miri), allow(unreachable_code))]
         TypeId {
             id: TypeId::of::<T> as *const () as usize,
             name,
